@@ -117,6 +117,13 @@ CLAIMED = {
         note="Shape-bounded: 3 body bytes, 2 UID characters, the listed layouts (58+ in quick, the cross product in thorough). v2 files, longer bodies, UTF-8 multi-byte sequences, trailing whitespace: bounded exhaustive run (about 50 000 v1 files, 400 v2 files) against a reference splitter. Four genuine defects found here were repaired. Known finding KF-C12-v1-version-range shared with C12.",
         technique="contracts on parse_header over a symbolic byte stream with the symbolic regex matcher (pyvc + z3); bounded layout enumeration",
         engine="pyvc"),
+    "C19": dict(
+        category="proof",
+        text="request_stmt and request_stmtend are proved to hand OFXClient.request_statements exactly one request per configured account - in account-type order, with that account's type, the given start/end/as-of dates and include flags, none missing, duplicated or of another type - for eight account-list length patterns (0..3 accounts per type) with every account number and flag symbolic; _acctIsActive accepts ACTIVE only. Discovery with --all (extract, filter ACTIVE, merge in front of the configuration, bank/broker id) runs bounded on the real functions.",
+        design_ref="DESIGN.md 9 (C19)",
+        note="Callees of the commands (date conversion, password, client) are abstract recorders in the proofs. Lists longer than 3 by uniformity of the comprehensions (stated). --all is bounded only: sampled account-information responses and 184 configured patterns (729 thorough). One defect repaired (crash when no account of a kind is ACTIVE); known finding KF-C19-all-configured-inactive.",
+        technique="map/concat postconditions on the real command functions with abstract callees (pyvc + z3); bounded runs of the discovery path",
+        engine="pyvc"),
 }
 
 
